@@ -21,6 +21,8 @@ Sidecar syntax (one file per source file, name <file>.contract):
   @body-start <fnpath>              whole lines directly after the opening brace line of the fn
   @loop-body <fnpath> <kind>#<n>    whole lines directly after the opening brace line of the loop body
   @loop-end <fnpath> <kind>#<n>     whole lines directly before the closing brace line of the loop body
+  @wrap-arg <fnpath> /regex(/ <count> <i>   wraps argument i of the matched call: prefix text, a line `---`, suffix text;
+                                    `$ARGn` in the text stands for the source text of argument n
 
 A content line may end with `//@ <obligation-id> [C01,C02]`: that line and the following lines of the
 block (until the next tag) belong to the named obligation.
@@ -195,6 +197,40 @@ def plan_insertions(src, blocks):
                     ins.append((e, 'inline', b))
                 else:
                     ins.append((a, 'inline', b))
+        elif d == 'wrap-arg':
+            # @wrap-arg <fn> /regex ending in the call's '('/ <count> <argidx>   content: prefix lines, '---', suffix lines
+            toks = split_args(b.args)
+            fnpath = toks[0]
+            m = re.match(r'\s*/(.*)/\s*(\S+)\s+(\d+)\s*$', b.args[len(fnpath):])
+            if not m:
+                raise AnchorError('bad wrap-arg syntax: %s' % b.args)
+            rx, count, argidx = m.group(1), m.group(2), int(m.group(3))
+            sep = b.lines.index('---')
+            for (a, e) in src.find_stmt(fnpath, rx, count):
+                if text[e - 1] != '(':
+                    raise AnchorError('wrap-arg regex must end at the opening parenthesis: %s' % rx)
+                args = src.call_args(e - 1)
+                if argidx >= len(args):
+                    raise AnchorError('wrap-arg: call has %d arguments' % len(args))
+                argtxt = [re.sub(r'\s+', ' ', text[x:y].strip()) for (x, y) in args]
+                (x, y) = args[argidx]
+                while text[x].isspace():
+                    x += 1
+                if text[x] == '&':
+                    x += 1
+                while text[y - 1].isspace():
+                    y -= 1
+                def subst(lines):
+                    out = []
+                    for l in lines:
+                        for i2, t in enumerate(argtxt):
+                            l = l.replace('$ARG%d' % i2, t)
+                        out.append(l)
+                    return out
+                pre = Block(b.bid, b.directive, b.args, subst(b.lines[:sep]), b.sidecar, b.sidecar_line)
+                suf = Block(b.bid, b.directive, b.args, subst(b.lines[sep + 1:]), b.sidecar, b.sidecar_line + sep + 1)
+                ins.append((x, 'inline', pre))
+                ins.append((y, 'inline', suf))
         elif d in ('loop-body', 'loop-end'):
             fnpath, spec = split_args(b.args)
             pos = src.find_loop(fnpath, spec)
